@@ -70,7 +70,7 @@ def checks_for(files):
 
 def do_run(ids):
     """Runs against a scratch worktree of /repo (VERIF_REPO), so /repo itself is never touched."""
-    wt = "/tmp/harmrun"
+    wt = f"/tmp/harmrun-{os.getpid()}"
     sh(f"git -C /repo worktree remove --force {wt}")
     assert sh(f"git -C /repo worktree add --detach {wt}").returncode == 0
     man = json.load(open(os.path.join(VERIF, "MANIFEST.json")))
